@@ -415,7 +415,7 @@ def main(tier, seed):
 
 
 # which attributes of a class are redefining ones (they take no parameter), in the order of the instance's attribute list
-REDEF_FLAGS = {"DCARRIER": "0010", "LCARRIER": "001"}
+REDEF_FLAGS = {"DCARRIER": "0010", "LCARRIER": "001", "RED2": "0010"}
 
 
 def sig_of(cls, desc, bad):
